@@ -72,6 +72,9 @@ def zeros (r c : Nat) : Arr α := { r := r, c := c, get := fun _ _ => 0 }
 /-- `np.empty((r, c))`: uninitialised memory, whose contents are `junk` -/
 def empty (junk : Nat → Nat → α) (r c : Nat) : Arr α := { r := r, c := c, get := junk }
 
+/-- `np.full((r, c), s)`: every entry is the Python scalar `s` -/
+def full (r c : Nat) (s : α) : Arr α := { r := r, c := c, get := fun _ _ => s }
+
 /-- `np.arange(n)`: the 1-D array `0, 1, …, n-1` -/
 def arange (n : Nat) : Arr α := { r := 1, c := n, get := fun _ j => nat j }
 
